@@ -65,6 +65,11 @@ CLAIMS['C10'] = dict(cat='model_checking', ref='DESIGN.md §4 C10',
          'that growth/shrink counters are monotone and move exactly with structural changes, that live allocations match the reported nodes; clear() zeroes everything.',
     note='history independence only in the form insert(k);remove(k) and via the reference shape (which depends on the key set only); I48/I256 classes appear only in the node-level lemmas of C01; db instantiation.')
 
+CLAIMS['C17'] = dict(cat='model_checking', ref='DESIGN.md §4 C17',
+    text='SAT decides, for every sequence of 2-3 (thorough: 4) wrapper operations with a symbolic choice among the 13 operation kinds, operands and offsets at every step, that all observers of qsbr_ptr '
+         'agree with shadow raw pointers after every step; qsbr_ptr_span vs its source span for every sub-span; in the assertion-enabled build the ghost registry equals the multiset of live non-null wrappers after every step.',
+    note='registry = ghost multiset behind the real out-of-line register/unregister functions; the link "quiescent/pause/resume assert registry emptiness" is by reading; sequences longer than the bound and self-assignment are outside the claim.')
+
 NOT_APPLICABLE = {
 }
 
